@@ -111,8 +111,8 @@ def _symmetry(ctx, P):
         m = re.fullmatch(r"for\(0; (\w+) < (.+)\.vin\.size\(\)\)", key)
         arg = xkey(call_args(ins[0].expr)[0], asub)
         ok = bool(m) and loop_is_total(lp) and not in_loop_guards(ins[0], lp) and \
-            re.fullmatch(r"std::make_pair\(&%s\.vin\[%s\]\.prevout, newit\)" % (re.escape(m.group(2)), m.group(1)), arg) is not None and \
-            m.group(2) in ("newit.GetTx()", "(*newit).GetTx()", "tx")
+            re.fullmatch(r"(?:std::pair\{)?std::make_pair\(&%s\.vin\[%s\]\.prevout, newit\)\}?" % (re.escape(m.group(2)), m.group(1)), arg) is not None and \
+            (m.group(2) in ("newit.GetTx()", "(*newit).GetTx()") or [show(v) for _, v in local_values(add, m.group(2))] == ["newit.GetTx()"])
     ctx.ob("addNewTransaction/spends", "PROVENANCE", "addNewTransaction records every input's outpoint of the new entry in mapNextTx (complete index loop, unconditional)", ok,
            ins[0].where if ins else add.where, {"loop": loop_range_key(ins[0].loops[-1], asub) if ins and ins[0].loops else None})
     ers = sites(rem, lambda e: callee(e) == "indirectmap::erase" and show(call_obj(e)) == "mapNextTx", P)
